@@ -73,7 +73,7 @@ func (m Function) CloneToPackage(pkg string) *Function {
 func (m Function) Definition() jen.Code {
 	stmts := jen.Empty()
 	if len(m.comment) > 0 {
-		stmts = jen.Commentf(insertNewlines(m.comment)).Line()
+		stmts = jen.Comment(insertNewlines(m.comment)).Line()
 	}
 	return stmts.Add(jen.Func().Id(m.name).Params(
 		m.params...,
@@ -193,7 +193,7 @@ func NewPointerMethod(pkg, name, structName string,
 func (m Method) Definition() jen.Code {
 	comment := jen.Empty()
 	if len(m.function.comment) > 0 {
-		comment = jen.Commentf(insertNewlines(m.function.comment)).Line()
+		comment = jen.Comment(insertNewlines(m.function.comment)).Line()
 	}
 	var funcDef *jen.Statement
 	switch m.member {
